@@ -197,14 +197,15 @@ Qed.
 Fixpoint be_digits_go (B : N) (fuel : nat) (n : N) (acc : list N) : list N :=
   match fuel with
   | O => acc
-  | S f => if n =? 0 then acc else be_digits_go B f (n / B) (n mod B :: acc)
+  | S f => if n =? 0 then acc else let (q, r) := N.div_eucl n B in be_digits_go B f q (r :: acc)
   end.
 
 Lemma be_digits_go_le B fuel n acc : be_digits_go B fuel n acc = rev (le_digits B fuel n) ++ acc.
 Proof.
   revert n acc. induction fuel as [|f IH]; intros n acc; [reflexivity|].
   cbn [be_digits_go le_digits]. destruct (n =? 0); [reflexivity|].
-  cbn [rev]. rewrite IH, <- app_assoc. reflexivity.
+  unfold N.modulo, N.div. destruct (N.div_eucl n B) as [q r]. cbn [fst snd rev].
+  rewrite IH, <- app_assoc. reflexivity.
 Qed.
 
 (* canonical big-endian digits of n ([] for 0) *)
